@@ -163,7 +163,21 @@ pub fn gen_case(prop: &str, seed: u64, idx: u64, tier: &str) -> AnyCase {
         "C03" | "C04" => return AnyCase::Read(readsim::gen_read_case(&mut rng, prop)),
         "C05" => return AnyCase::Read(readsim::gen_c05(&mut rng, idx)),
         "C10" => return AnyCase::Enc(readsim::gen_c10(&mut rng)),
-        "C18" => return AnyCase::Text(textsim::gen_text_case(&mut rng)),
+        "C18" => {
+            if idx % 50 == 49 {
+                // the statement's last clause ("the parallel paths see precisely the record stream the serial path
+                // sees") on the whole pipeline: the same input through the serial text source (reference) and through
+                // the indexed, per-chromosome-view parallel source must give the same bytes (C11's engine, sources
+                // restricted to the two text paths; chromosome runs in any order the sort option allows)
+                let mut mc = pipeprops::gen_c11(&mut rng, tier);
+                for (k, v) in mc.variants.iter_mut().enumerate() {
+                    v.source = if k % 3 == 2 { Source::SerialText } else { Source::ParallelFile };
+                    v.mt_threads = 0;
+                }
+                return AnyCase::Multi(mc);
+            }
+            return AnyCase::Text(textsim::gen_text_case(&mut rng));
+        }
         "C19" => {
             if idx % 3 == 0 {
                 return AnyCase::Cli(clisim::gen_cli(&mut rng, prop));
